@@ -128,4 +128,11 @@ theorem c06_no_nested_lock_on_any_call_path {fn : FV.Locks.Fn} (hfn : fn ∈ FV.
     (hh : FV.Generated.Locks.facts[h]? = some fnh) : m ∉ fnh.acquires :=
   FV.Locks.ok_no_nested_path _ _ _ c06_lock_discipline hfn hheld hrel hr hh
 
+/-- **No lock-order cycle** among the mutexes of lib/go (all tags): `m → m'` when some function acquires `m'`,
+itself or through callees, while it holds `m`; no mutex reaches itself — the two-lock deadlock is excluded on
+the regenerated facts (today the only edges lead to the logger's mutex). -/
+theorem c06_lock_order_acyclic :
+    FV.Locks.acyclic [1, 2, 3, 4, 5, 6, 7, 8] FV.Generated.Locks.mutexTags FV.Generated.Locks.facts = true := by
+  decide +kernel
+
 end FV.C06
